@@ -3,7 +3,7 @@ import os
 from facts import AnalysisBroken
 from model import (dstr, strip, fact_holds, mentions_field, mentions_call, mentions_var,
                    const_value, walk, norm_cond, _split_composite)
-from rules import (guarded, calls_to, field_writes, who_may_write, full_range, loops_over,
+from rules import (flush_succeeded_at, guarded, calls_to, field_writes, who_may_write, full_range, loops_over,
                    every_iteration_passes, basename, origins, is_var, is_enum, lastname,
                    dominated_by, reject_if, must_pass, deep_resolve, skip_conditions_exact,
                    header_iff_empty, linear)
@@ -335,8 +335,12 @@ def run(ctx):
             if e.get('name') in mem or lastname(e.get('name')) in mem:
                 if lastname(e.get('name')) == 'push_back' and not mentions_field(e.get('recv'), 'DepsLog::nodes_'):
                     continue
-                dominated_by(ctx, 'C09.O2', f, e, lambda x: x is fl[0], 'memory is updated after the flush',
-                             'memory-before-flush:%s' % lastname(e.get('name')))
+                if flush_succeeded_at(f, e):
+                    ctx.inst('C09.O2', f.where(e), 'memory is updated only where the flush is known to have succeeded - `%s` in %s' % (
+                        (e.get('src') or '')[:60], f.name))
+                else:
+                    dominated_by(ctx, 'C09.O2', f, e, lambda x: x is fl[0], 'memory is updated after the flush',
+                                 'memory-before-flush:%s' % lastname(e.get('name')))
                 guarded(ctx, 'C09.O2', f, e, lambda a: mentions_call(a, 'fflush'), None,
                         'and only when the flush succeeded', construct='memory-after-failed-flush:%s' % lastname(e.get('name')))
     ctx.floor('C09.O2', 12)
